@@ -872,8 +872,63 @@ where
             return out;
         }
     }
+    // range ends must be bucketed by the same mapping as points: values over ranges that start
+    // and end at misaligned coordinates around every bucket edge, observed by point queries
+    let mut ranges: Vec<(i64, i64)> = Vec::new();
+    for b in 0..nb.saturating_sub(1) {
+        let l = lay.last_of(b);
+        let f1 = lay.first_of(b + 1);
+        ranges.push((l, f1));
+        let f0 = lay.first_of(b);
+        if f0 < l {
+            ranges.push((f0 + 1, f1));
+            ranges.push((f0 + (l - f0) / 2 + 1, f1.min(hi).max(l)));
+        }
+        if b + 2 < nb {
+            ranges.push((l, lay.first_of(b + 2)));
+        }
+    }
+    ranges.retain(|(a, b)| a <= b && *a >= lo && *b <= hi);
+    ranges.truncate(160);
+    for (j, (a, b)) in ranges.iter().enumerate() {
+        let range = SegRange { min: R::from_i64(*a), max: R::from_i64(*b) };
+        let val = SegVal { id: 100_000 + j as u32, exp: 10 };
+        let t = &mut tree;
+        let (r, _, _) = lib_call(None, crate::run::INTERNAL_BUDGET, false, || t.insert_by_range(range, val));
+        if let Err(e) = r {
+            out.fail(if rc.obs(14) { 14 } else { 10 }, "range-insert-panicked", 0, format!("SegExpTree::<{}> over [{}, {}]: insert of range [{}, {}] failed: {:?}", R::NAME, lo, hi, a, b, e));
+            return out;
+        }
+    }
+    if !ranges.is_empty() {
+        out.class("domain_range_ends_checked");
+    }
+    for y in pts.iter() {
+        let range = SegRange { min: R::from_i64(*y), max: R::from_i64(*y) };
+        let t = &mut tree;
+        let (r, _, _) = lib_call(None, crate::run::INTERNAL_BUDGET, false, || {
+            let mut v: Vec<u32> = t.iter_by_range(range, 0).map(|v| v.id).filter(|id| *id >= 100_000).collect();
+            v.sort();
+            v
+        });
+        let got = match r {
+            Ok(v) => v,
+            Err(e) => {
+                out.fail(if rc.obs(14) { 14 } else { 10 }, "point-query-panicked", 0, format!("SegExpTree::<{}> over [{}, {}]: query at point {} failed: {:?}", R::NAME, lo, hi, y, e));
+                return out;
+            }
+        };
+        let by = lay.bucket(*y);
+        let expected: Vec<u32> = ranges.iter().enumerate().filter(|(_, (a, b))| lay.bucket(*a) <= by && by <= lay.bucket(*b)).map(|(j, _)| 100_000 + j as u32).collect();
+        out.observations += 1;
+        if rc.obs(14) && got != expected {
+            let show = |ids: &Vec<u32>| ids.iter().take(6).map(|id| ranges[(*id - 100_000) as usize]).collect::<Vec<_>>();
+            out.fail(14, "range-end-mapping", 0, format!("SegExpTree::<{}> over [{}, {}] (bucket width {}): a point query at {} (bucket {}) finds the range values {:?}…, the reference mapping of their end points says {:?}…", R::NAME, lo, hi, lay.width(), y, by, show(&got), show(&expected)));
+            return out;
+        }
+    }
     if rc.trace {
-        out.trace.push(format!("bucket width {}, {} buckets in use, {} test points inserted and queried", lay.width(), nb, pts.len()));
+        out.trace.push(format!("bucket width {}, {} buckets in use, {} test points and {} edge-straddling ranges inserted and queried", lay.width(), nb, pts.len(), ranges.len()));
     }
     out.ops_run = pts.len() as u32 * 2;
     out
